@@ -134,6 +134,10 @@ def ctxTokens (ctx : String) (t : Token) : Option (List Token) :=
   | "not" => some [.not, t]
   | "mid" => some [tt, t, .or, ff]
   | "list" => some [ff, .comma, t, tt]
+  | "gparen" => some [.lparen, t, .rparen]
+  | "long" => some (List.replicate 60 tt ++ [t, .or, ff])
+  | "tab" => some [tt, t]
+  | "deep" => some (List.replicate 20 .lparen ++ [t] ++ List.replicate 20 .rparen)
   | _ => none
 
 /-- Expected observation class for `keyword args` in a context, from the spec alone. -/
